@@ -236,6 +236,9 @@ def run(ctx):
                   construct='unbracketed:%s->%s' % (fname(rep[0]), callee_txt), path=path,
                   detail='lookup dominates and insertion post-dominates the load within one hold')
     ctx.minimum('C20-fixed', 1)
+    # the fixed-offset test itself must accept every name the library generates for an offset
+    from .c15 import check_bounds
+    check_bounds(ctx, 'C20-fixed', exact=False)
     ctx.minimum('C20-serial', 1)
     ctx.minimum('C20-once', 1)
     ctx.minimum('C20-record', 1)
